@@ -573,6 +573,22 @@ def extreme_unit_scenarios(rng, count, kind="sup", nq=2, nu=0):
     return out
 
 
+def reload_scenarios(rng, count, kind="sup", resub=False):
+    """The fitted model goes through save -> load into a freshly constructed object built with ANOTHER metric before it predicts
+    (history forced to 'reload'): many queries on overlapping classes, non-default metrics on several scales."""
+    out = []
+    mets = ["euclidean", "manhattan", "chebyshev", "squared_euclidean", "canberra", "chi_squared", "gower", "average_euclidean"]
+    for i in range(count):
+        met = mets[i % len(mets)]
+        scn = random_float_scenario(rng, kind=kind, metric=met, n=rng.randrange(6, 13), nu=(2 if kind == "semi" else 0), nq=14, mode="metric",
+                                    classes=rng.choice([2, 3, 4]), dim=2, copies=False, positive=(met in POSITIVE_METRICS))
+        if resub:
+            scn["Q"] = list(scn["I_train"]) + scn["Q"][:4]
+        scn["history"] = ["reload"] if i % 3 else ["prepredict", "reload"]
+        out.append(scn)
+    return out
+
+
 def mixed_dtype_scenarios(rng, count, kind="sup", nq=4, nu=0):
     """The arrays of one call need not share a dtype: integer-typed labeled samples on a grid with real-valued unlabeled samples
     and queries (or the other way round)."""
